@@ -7,7 +7,7 @@ variables declared via let, T(From(d)) or inside an(T(...)).
 """
 from __future__ import annotations
 
-from dataclasses import dataclass
+from dataclasses import dataclass, field
 from typing import Any
 
 from entity_query_language import symbol
@@ -32,6 +32,7 @@ ASSUMPTIONS = ["field values are truthy (C19 covers falsy ones)"]
 @symbol
 @dataclass(eq=False)
 class Bd:
+    tag: Any = field(default="t", kw_only=True)     # keyword-only and declared FIRST: positional values start at `name`
     name: Any = "a"
     size: Any = 1
     kind: Any = "k"
@@ -60,15 +61,17 @@ class Other:
     name = "a"
     size = 1
     kind = "k"
+    tag = "t"
     parent = None
     child = None
     w = 1
 
 
 CLS = {"Bd": Bd, "Hd": Hd, "Hd2": Hd2, "Cn": Cn}
-FIELDS = {"Bd": ["name", "size", "kind"], "Hd": ["name", "size", "kind"], "Hd2": ["name", "size", "kind"],
+FIELDS = {"Bd": ["name", "size", "kind", "tag"], "Hd": ["name", "size", "kind", "tag"], "Hd2": ["name", "size", "kind", "tag"],
           "Cn": ["parent", "child", "w"]}
-VALS = {"name": ["a", "b", "c"], "size": [1, 2, 3], "kind": ["k", "m"], "w": [1, 2]}
+POSITIONAL = {"Bd": 3, "Hd": 3, "Hd2": 3, "Cn": 3}      # how many leading fields may be given positionally
+VALS = {"name": ["a", "b", "c"], "size": [1, 2, 3], "kind": ["k", "m"], "w": [1, 2], "tag": ["t", "u", "a"]}
 
 
 def plan(tier, seed):
@@ -86,7 +89,8 @@ def floors(tier):
 def gen_case(rng):
     bodies = []
     for _ in range(rng.randint(3, 6)):
-        bodies.append([rng.choice(["Bd", "Bd", "Hd", "Hd2"]), rng.choice(VALS["name"]), rng.choice(VALS["size"]), rng.choice(VALS["kind"])])
+        bodies.append([rng.choice(["Bd", "Bd", "Hd", "Hd2"]), rng.choice(VALS["name"]), rng.choice(VALS["size"]), rng.choice(VALS["kind"]),
+                       rng.choice(VALS["tag"])])
     conns = [[rng.randrange(len(bodies)), rng.randrange(len(bodies)), rng.choice(VALS["w"])] for _ in range(rng.randint(2, 5))]
     target = rng.choice(["Bd", "Hd", "Hd2", "Cn", "Cn"])
     fields = []
@@ -95,7 +99,7 @@ def gen_case(rng):
     positional_prefix = 0
     if chosen and rng.random() < 0.35:
         # positional arguments must be a prefix of the field list
-        k = rng.randint(1, len(names))
+        k = rng.randint(1, POSITIONAL[target])
         chosen = names[:k] + [f for f in chosen if f not in names[:k]]
         positional_prefix = k
     for f in chosen:
@@ -126,7 +130,7 @@ def cases(spec, ctx):
 
 
 def build_data(case):
-    bodies = [CLS[c](name=n, size=s, kind=k) for c, n, s, k in case["bodies"]]
+    bodies = [CLS[b[0]](name=b[1], size=b[2], kind=b[3], tag=b[4] if len(b) > 4 else "t") for b in case["bodies"]]
     conns = [Cn(parent=bodies[p], child=bodies[c], w=w) for p, c, w in case["conns"]]
     base = list(conns if case["target"] == "Cn" else bodies)
     dom = list(base)
@@ -183,7 +187,7 @@ def run(case, bodies, dom, form):
                 else:
                     sub_kwargs = {g: sv[1] for g, sv in v[2]}
                     if v[3]:    # nested term given positionally as far as possible
-                        names = FIELDS[v[1]]
+                        names = FIELDS[v[1]][:POSITIONAL[v[1]]]
                         pos = []
                         for nme in names:
                             if nme in sub_kwargs:
